@@ -162,30 +162,37 @@ def _nested_entry(rng, h):
     return out
 
 
-def gen_multi2(rng, k: int, vary: bool = False):
+def gen_multi2(rng, k: int, vary: bool = False, shapes: bool = False):
     """sections from the single-section generators (plain / page_by / new_page / subline_by / group_by, decorated
     attributes), headers nested / flat / default / empty, shared title / subline / footnote / source / page.
     `vary`: the header-variation class — every section's explicit header rows come from `encodecorr.vary_headers`
     (any number of cells from 1 to the section's original column count + 1, widths inherited / per original column /
     per displayed column / per cell), sections prefer the strategies that take columns out of the table, the header
-    list is nested (one entry per section) or flat (the first section's)"""
+    list is nested (one entry per section) or flat (the first section's).
+    `shapes`: the data-shape class (`harness/datashapes.py`) — group_by over columns that are untyped-null / typed-null /
+    null but one value at some level, and whole data / page_by / subline_by columns rewritten in those shapes (and
+    as Object columns) after the section is complete; sections long enough for several pages"""
+    from . import datashapes
     from .props import c02, c06, c09
 
     if vary:
         nsec = rng.choice([1, 2, 2, 3, 3, 4])
         mode = rng.choice(["nested", "nested", "nested", "flat"])
+    elif shapes:
+        nsec = rng.choice([1, 2, 2, 3, 4])
+        mode = rng.choice(["nested", "nested", "flat", "default"])
     elif k % 10 == 9:
         spec, info = c02.gen_multi(rng)
         info = dict(gen="c02.gen_multi", mode="nested", strategies=["plain"] * len(spec["df"]))
         return spec, info
-    if k % 50 == 7 and not vary:
+    if k % 50 == 7 and not vary and not shapes:
         # no section at all: the preamble followed by an empty body
         spec = dict(kind="multi", df=[], body=[], headers=[], page=dict(nrow=rng.randint(3, 30)),
                     title=dict(text=["TTL0"]) if rng.random() < 0.5 else None,
                     page_header={} if rng.random() < 0.5 else None,
                     footnote=dict(text="FTNOTE", text_color=rng.choice(EXTRA_COLORS)) if rng.random() < 0.5 else None)
         return spec, dict(gen="multi2", mode="empty", strategies=[], nsec=0)
-    if not vary:
+    if not vary and not shapes:
         nsec = rng.choice([1, 2, 2, 2, 3, 3, 4])
         mode = rng.choice(["nested", "nested", "nested", "flat", "flat", "default", "empty"])
     geo = c06.rand_geometry(rng)
@@ -203,7 +210,9 @@ def gen_multi2(rng, k: int, vary: bool = False):
             c09.permute_columns(rng, sspec, sinfo)
         if rng.random() < 0.3:
             c02.mutate_cells(rng, sspec, sinfo, convert_off=False)
-        if rng.random() < 0.2:
+        if shapes and rng.random() < 0.6:
+            datashapes.add_group_by(rng, sspec, sinfo)
+        elif not shapes and rng.random() < 0.2:
             ec.add_group_by(rng, sspec, sinfo)
         if vary:
             if rng.random() < 0.4:
@@ -213,6 +222,9 @@ def gen_multi2(rng, k: int, vary: bool = False):
             ec.decorate(rng, sspec, sinfo, rich=rng.random() < 0.5)
         if vary:
             ec.label_headers(sspec, sinfo)
+        if shapes:
+            sinfo["data_shapes"] = sinfo.get("data_shapes", []) + datashapes.reshape(
+                rng, sspec["df"], sspec["body"], group_by=False, must=not sinfo.get("data_shapes"))
         # a colour that only this section's body / header uses (the colour table is the whole document's)
         if rng.random() < 0.35:
             sspec["body"][rng.choice(["text_color", "text_background_color", "border_color_top", "border_color_left",
@@ -257,6 +269,8 @@ def gen_multi2(rng, k: int, vary: bool = False):
             c[rng.choice(["text_color", "text_background_color"])] = rng.choice(EXTRA_COLORS + c09.COLORS)
     info = dict(gen="multi2", mode=mode, strategies=[st for _, _, st in secs], nsec=nsec,
                 placements=[pt, pf, ps], new_page=[bool(sp["body"].get("new_page")) for sp, _, _ in secs])
+    if shapes:
+        info.update(gen="multi2+shapes", data_shapes=[x for _, si, _ in secs for x in si.get("data_shapes", [])])
     if vary:
         # the rows that are rendered: every section's own entry of a nested list, the first section's in a flat list
         used = secs if mode == "nested" else secs[:1]
@@ -439,6 +453,9 @@ def _worker(args):
     try:
         if fixed is not None:
             spec, info = fixed["spec"], fixed.get("info", {})
+        elif rest and rest[0] == "shapes":
+            # the data-shape class (`harness/datashapes.py`): its own random stream
+            spec, info = GEN[path](common.sub_rng(seed, "encodecorr2", "shapes", path, k), k, shapes=True)
         elif rest and rest[0]:
             # the header-variation class: its own random stream, the paths' streams stay as they were
             spec, info = GEN[path](common.sub_rng(seed, "encodecorr2", "headers", path, k), k, vary=True)
@@ -473,10 +490,12 @@ def _worker(args):
             shutil.rmtree(wd, ignore_errors=True)
 
 
-def generate_and_compare(seed: int, n_per_path: int, paths=PATHS, fixed=None, headers: int = 0):
-    """`headers` = number of additional documents of the header-variation class per table path (multi, nested1)"""
+def generate_and_compare(seed: int, n_per_path: int, paths=PATHS, fixed=None, headers: int = 0, shapes: int = 0):
+    """`headers` = number of additional documents of the header-variation class per table path (multi, nested1);
+    `shapes` = number of additional documents of the data-shape class on the multi-section path"""
     jobs = [(seed, p, k, None) for p in paths for k in range(n_per_path)]
     jobs += [(seed, p, k, None, True) for p in paths if p != "figure" for k in range(headers)]
+    jobs += [(seed, p, k, None, "shapes") for p in paths if p == "multi" for k in range(shapes)]
     jobs += [(seed, f["path"], -1, f) for f in (fixed or [])]
     outs = common.pool_map(_worker, jobs, chunksize=8)
     for o in outs:
@@ -488,12 +507,15 @@ def generate_and_compare(seed: int, n_per_path: int, paths=PATHS, fixed=None, he
 def run(res, tier):
     """per-path byte agreement of the encoder models with the implementation; returns the list of outcomes"""
     n = 150 if tier == "quick" else 1200
-    outs = (generate_and_compare(res.seed, n, headers=n // 3) +
+    from . import datashapes
+
+    outs = (generate_and_compare(res.seed, n, headers=n // 3, shapes=n // 3) +
             generate_and_compare(res.seed, n // 3, paths=EXTRA_PATHS, headers=n // 6))
     for o in outs:
         case = dict(level="encode-doc2", path=o["path"], spec=o["spec"], info=o["info"])
         res.count(f"encode2:{o['path']}:{o['verdict']}")
         ec.count_header_rows(res, o["info"], prefix="hdrcells2")
+        datashapes.count(res, o["info"], prefix="datashape:encode2")
         if o["verdict"] in ("agree", "both-error"):
             res.corr_checked += 1
         elif o["verdict"] in ("near", "construct-error"):
